@@ -274,5 +274,6 @@ def run(ctx):
     ctx.run_rule('C15.3c', 'T2', 'every file is parsed whatever the other files contain', decisions.r_every_file_parsed, prog)
     ctx.run_rule('C15.6', 'T2', 'whether the inputs are compiled does not depend on how they are split between sources and references', _c07.r_every_input_compiled, prog)
     ctx.run_rule('C15.2c', 'T1', 'which element a name denotes does not depend on the order of the files: definitions are last-writer-wins, a module never takes a name', _c03.r_name_table_single_writer, prog)
+    ctx.run_rule('C15.4e', 'T13', 'what a type reference resolves to is worked out from that reference under the recorded conditions (the ledger of the type patcher: a step that is skipped because an earlier reference was resolved - a memo across references - shows as a moved or missing site)', _c03.r_patcher_preconditions, prog)
     ctx.run_rule('C15.2b', 'T1', 'the table of seen definitions is written only by the step that also checks and reports', r_symmetric_redefinition_table, prog)
     ctx.run_rule('C15.5', 'T10', 'the diagnostics emitted and counted are exactly what into_updated returned', r_emitted_is_updated, prog)
